@@ -411,6 +411,12 @@ class Gen:
             return "opaque_string()"
         body = re.sub(r'"(?:[^"\\]|\\.)*"\s*\.to_string\(\)', tostr, body)
         body = re.sub(r'"(?:[^"\\]|\\.)*"\s*\.into\(\)', tostr, body)
+        # R-CAST (generic): `E >= Ordering::Equal` etc. are written with std's inherent methods (same meaning by definition)
+        def ordcmp(m):
+            name = {">=": "is_ge", "<=": "is_le", ">": "is_gt", "<": "is_lt"}[m.group(1)]
+            self.log.append({"rule": "R-CAST", "file": rel, "fn": qual, "line": line, "what": "`.. %s Ordering::Equal` => `.%s()`" % (m.group(1), name)})
+            return ".%s()" % name
+        body = re.sub(r"\s*(>=|<=|>|<)\s*Ordering::Equal\b", ordcmp, body)
         # R-REFPAT (generic): `if let Some(&x) = E {`  =>  `if let Some(x__r) = E { let x = *x__r;`
         def refpat(m):
             self.log.append({"rule": "R-REFPAT", "file": rel, "fn": qual, "line": line, "what": "`%s let Some(&%s) = ..` => bind reference, then `let %s = *%s__r;`" % (m.group(1), m.group(2), m.group(2), m.group(2))})
